@@ -22,7 +22,7 @@ EXPLANATION = (
     "(renaming, wrapping into a function; shared with C08); (R5) implicit component names are injective over (module, "
     "node, instantiation) (moving declarations into a module; shared with C09). The equality of documents over program "
     "pairs and rewrite sequences is not decidable by this family and is not claimed.")
-EXPLANATION += " Further clauses: (R6) JOIN-AGREE (shared C10.R5); (R7) VAR-UNIFORM - the eleven kind predicates treat an unresolved tag alike, so that applying a function in its own module or only in an importer cannot change the verdict. R1 also requires eval_binding to return the argument's annotations extended by those of the occurrence. R3 also requires that productions use token positions for error spans only; (R8) ROOTS - evaluation is driven by the resources alone. (R9) LATE-ANNOTATION - annotation keys are read where the value is finally consumed (five known findings). (R10) COMMENT-LEXEME - the block-comment token is exactly /* .. */ with no */ inside (decided exhaustively on the pattern)."
+EXPLANATION += " Further clauses: (R6) JOIN-AGREE (shared C10.R5); (R7) VAR-UNIFORM - the eleven kind predicates treat an unresolved tag alike, so that applying a function in its own module or only in an importer cannot change the verdict. R1 also requires eval_binding to return the argument's annotations extended by those of the occurrence (what the argument's declaration says with `#` is refined at the use, as for a variable). (R15) INNER-WINS: an annotation written in place on the argument wins over the outer one as it does in eval_terminal - the flat annotation set of a binding cannot satisfy both, one known finding. R3 also requires that productions use token positions for error spans only; (R8) ROOTS - evaluation is driven by the resources alone. (R9) LATE-ANNOTATION - annotation keys are read where the value is finally consumed (five known findings). (R10) COMMENT-LEXEME - the block-comment token is exactly /* .. */ with no */ inside (decided exhaustively on the pattern)."
 TECHNIQUE = "static analysis: def-use transparency rules on MIR, who-may-call, predicate evaluation by abstract interpretation, shared scope/naming rules"
 
 TRIVIA_EXPECTED = {'Space', 'CommentLine', 'CommentBlock'}   # frozen: the three token kinds whose patterns are whitespace / comments
@@ -352,9 +352,13 @@ def run(c, facts):
     c.run(lambda c: lexrules.ident_alphabet(c, facts, 'C05.R12'))
     import c02 as _c02
     c.run(lambda c: _c02.r15c_rec_use_site(c, facts, rule='C05.R13'))
+    c.run(lambda c: _c02.r23_inner_wins(c, facts, rule='C05.R15'))      # a single-use function keeps the precedence of the annotations
     c.run(r9_late_annotations, facts)
     R6 = c.rule('C05.R6', 'JOIN-AGREE: a declaration moved into a module is found again: an import binds to the module that was loaded for it (shared with C10.R5)')
     c.shared(R6, c10.r5_join_agree, 'C10.R5', facts)
+    R16 = c.rule('C05.R16', 'MODULE-MOVE: a group of declarations moved into a module is loaded from the file the `use` names, whatever its name (Url::join / Url::to_file_path, shared with C10.R7), and naming a sub-expression never makes a cycle: a cycle error comes from the topological sort of the modules alone (shared with C10.R6)')
+    c.shared(R16, c10.r7_locators, 'C10.R7', facts)
+    c.shared(R16, c10.r6_complete, 'C10.R6', facts)
     c.run(r1_transparent, facts)
     R2 = c.rule('C05.R2', 'ORDER-FREE: declarations are tagged and declared before any traversal')
     c.run(lambda c: I.pre_tag(c, facts, R2))
